@@ -311,7 +311,7 @@ func runProtocol(kc *kernelCtx, blocks []*Block, only string, want map[string]bo
 		if on("C14") {
 			pc.p9BlockingWaits(s)
 		}
-		if on("C02") {
+		if on("C02") || on("C13") {
 			pc.p4Mode(s)
 		}
 		if on("C08") {
